@@ -24,6 +24,7 @@ Mark == TLCSet(1, l)
 TraceAccepted == TLCGet(1) = Len(TLog)
 NotReset == xev'.type # "Init"
 T_C20_Forward == [][NotReset => C20_Forward_Step]_tvars
+T_C20_SendsWhenPossible == [][NotReset => C20_SendsWhenPossible_Step]_tvars
 T_C20_NoPanic == ("panicked" \in DOMAIN ob) => ~ob.panicked
 T_Conformance == conf
 =============================================================================
